@@ -26,9 +26,15 @@ CLAIMED = {
               "parse(), nothing can leave a destructor or noexcept function of the parser; (5) the optimizer, which runs inside "
               "parse(), lets nothing escape: exception flow over its 845 reachable functions with guard-aware call sites "
               "(boxed_cast after a type test, dynamic_cast after an identifier test, Boxed_Number after is_arithmetic(), and the "
-              "checked invariant that Type_Info never flags bool as arithmetic). Not decided: termination of the "
-              "lexer/parser loops; that the tree accounts for each byte beyond (1)."),
-        technique="must-pass-through + recursion-cycle analysis + abstract interpretation (cursor lower-bound domain) + interprocedural exception flow",
+              "checked invariant that Type_Info never flags bool as arithmetic); (6) termination: every input-driven loop "
+              "of the lexer/parser (63 loops) consumes at least one character in each iteration that can be followed by "
+              "another one - second mode of the cursor analysis with call outcomes split into returned-true/returned-false, "
+              "'cursor untouched when false' summaries, memoised character predicates, retro-confirmed ++ under has_more, "
+              "tracked mode flags, 2-induction for flag-flipping iterations, and 'returned true => consumed >= 1' summaries "
+              "taken as the greatest fixpoint; supporting obligations: every keyword/symbol/operator string is non-empty, "
+              "Symbol_/Keyword_ consume exactly their symbol's length; recursion is bounded by (2). Not decided: that the "
+              "tree accounts for each byte beyond (1)."),
+        technique="must-pass-through + recursion-cycle analysis + abstract interpretation (cursor lower-bound domain; loop-progress mode with greatest-fixpoint summaries and 2-induction) + interprocedural exception flow",
         ref="DESIGN.md section 4 C01"),
     "C04": dict(
         text=("Decides that a lookup result is a function of the looked-up name on every path: each return of get_object / "
